@@ -25,8 +25,11 @@ type C07 struct {
 	flows, rows int64
 }
 
-func (m *C07) ID() string          { return "C07" }
-func (m *C07) Done(w *world.World) { w.Count("c07.flow_checks", m.flows); w.Count("c07.row_checks", m.rows) }
+func (m *C07) ID() string { return "C07" }
+func (m *C07) Done(w *world.World) {
+	w.Count("c07.flow_checks", m.flows)
+	w.Count("c07.row_checks", m.rows)
+}
 
 func collateral(s *mon.State, p string) sdk.Int {
 	k := sdk.ZeroInt()
